@@ -401,6 +401,12 @@ class ControlledThreadPool:
     out keeps its worker (terminate() does not stop a running thread)."""
 
     def __init__(self, processes=None, *a, **k):
+        ctl = current()
+        # starting the worker thread(s) can fail ("can't start new thread" under resource
+        # exhaustion): an environment answer like any other
+        label = "ThreadPool#{}<{}>".format(ctl.count("poolnew"), _site())
+        if ctl.choose("poolnew", label, 2) == 1:
+            raise RuntimeError("can't start new thread (injected)")
         self.workers = processes if processes else (os.cpu_count() or 1)
         self.abandoned = 0
 
